@@ -129,6 +129,13 @@ def main(pid):
         outside = [w for _, w in rnd.sample(wit, 25)]
         for t in inside + outside + docs[:15]:
             items.append({"text": t, "sub": sub})
+    # "every extractor list": a caller's own extractors (filter strings written in mixed case) next to the special shipped ones
+    own_texts = ["Cf. Foo v. Bar, 1 U.S. 1.", "cf. 1 U.S. 1", "CF. 1 U.S. 1", "Accord, 2 F.2d 2; accord id. at 5", "ACCORD 2 F.2d 2",
+                 "But see Bar, supra, at 3", "but see § 5", "BUT SEE id.", "Contra Foo, 1 U.S. at 5; contra, supra", "Semble 1 U.S. 1; semble not",
+                 "Sed vide 3 U.S. 3", "nothing of the kind here"]
+    own_texts += [v for st in ("Cf.", "Accord", "Contra", "But see") for v in case_variants(st)]
+    items += [{"text": t, "sub": None, "custom": True} for t in own_texts + docs[:40]]
+    ev.cov["custom_extractor_texts"] = len(own_texts) + 40
     rnd.shuffle(items)
     obs = vlib.impl_map("drv_aho", "run_diff", items, chunks=vlib.NCPU)
     fails, _ = tlc_judge("Trace_AhoFilter", "Trace_AhoFilter.cfg", obs, ev, "diff", chunk=6000)
